@@ -44,6 +44,44 @@ def _run(project, qual, names, sigma=True):
     return fi, I, r
 
 
+def check_empty_side(project: Project, rep):
+    """HT-EMPTY — against the empty diagram the cross kernel and the empty diagram's own kernel are empty sums, so
+    d(F, ∅) = sqrt(k(F, F)) (positive for a diagram with off-diagonal points): a short cut for 'nothing to compare' must not
+    be taken when only one side is empty.  `heat` is evaluated with an empty second / first diagram."""
+    from ..core.values import fix, fresh
+    fi = project.function(HEAT)
+    sigma = sym.Sym("sigma")
+    for side in (1, 0):
+        I = Interp(project, Config(nonempty={("rows", "F")}, finite_inputs={"F"}))
+        E = Arr([(fix(0), fresh()), (fix(2), fresh())], sym.Opq("empty", ()), "nd")
+        F = dgm_input("F")
+        ps = fi.params
+        args = {ps[0]: F if side == 1 else E, ps[1]: E if side == 1 else F}
+        if len(ps) > 2:
+            args[ps[2]] = Sc(sigma)
+        what = "heat(F, ∅)" if side == 1 else "heat(∅, F)"
+        try:
+            r = I.run(HEAT, args)
+        except Exception as ex:
+            rep.unmodelled("HT-EMPTY", fi, fi.node, f"{what}: could not be followed ({type(ex).__name__}: {ex})"[:200])
+            continue
+        if I.unmodelled or I.lossy or not isinstance(r, Sc) or r.e is None or unmodelled_in(r.e):
+            why = I.unmodelled[0]["tag"] if I.unmodelled else (I.lossy[0]["why"] if I.lossy else repr(r))
+            rep.unmodelled("HT-EMPTY", fi, fi.node, f"{what}: not followed exactly ({why})"[:200])
+            continue
+        kff = kernel_spec("F", "F", sigma)
+        specs = [sym.fn("sqrt", sym.fn("max", kff, sym.ZERO)), sym.fn("sqrt", kff)]
+        res = [symeval.equivalent(r.e, s_, positive_syms={"sigma"}, trials=10) for s_ in specs]
+        if any(x[0] is True for x in res):
+            rep.discharged("HT-EMPTY", fi, fi.node, f"{what} = sqrt(k(F, F)): the distance to the empty diagram is the diagram's own norm")
+        elif all(x[0] is False for x in res):
+            rep.refuted("HT-EMPTY", fi, fi.node, f"{what} is {sym.show(r.e)[:80]}, not sqrt(k(F, F)): the distance to the empty diagram is "
+                                                 f"not the diagram's own norm (zero for a non-trivial diagram breaks d(F, G) ≤ d(F, ∅) + d(∅, G))",
+                        construct=f"{HEAT}: one empty diagram")
+        else:
+            rep.unmodelled("HT-EMPTY", fi, fi.node, f"{what}: the derived value could not be compared")
+
+
 def check_one_sigma(project: Project, rep):
     """HT-ONESIGMA — the three kernel terms of one distance are evaluated with ONE bandwidth, however the caller supplies it.
     `heat` is executed with its kernel routine(s) observed instead of executed (stubs): once with the bandwidth given the way
@@ -325,6 +363,7 @@ def run(project: Project, rep, tier: str):
                         construct=f"{HEAT}: unclamped sqrt",
                         failing_input="F = 6 random points, G = a permutation of F: NaN in 428 of 2000 trials")
     check_one_sigma(project, rep)
+    check_empty_side(project, rep)
     for r, n in (("HT-KER", 2), ("HT-DIST", 1), ("HT-SHIFT", 1), ("HT-SWAP", 1), ("HT-UNITS", 1), ("HT-REAL", 1), ("HT-STATE", 1),
                  ("HT-ONESIGMA", 1)):
         rep.floor(r, n)
